@@ -71,6 +71,14 @@ static const Hand HAND[] = {
     {"clc", CF_SAFE},
     {"test cl, cl", CF_SAFE},
     {"setc dl", CF_SAFE},
+    // the accumulator forms of xchg and literals that do not fit 64 bits (strtoul saturates): unusual but accepted input
+    {"xchg rax, rcx", 0},
+    {"xchg eax, r9d", 0},
+    {"xchg ax, dx", 0},
+    {"xchg rax, r11", 0},
+    {"mov rax, 0x10000000000000000", 0},
+    {"mov rcx, 99999999999999999999", 0},
+    {"lea rax, [rbx+0x10000000000000000]", 0},
     // option-sensitive probes of the documentation
     {"lea r15, [rax+rsp]", CF_OPTSENS},
     {"lea r15, [2*rax]", CF_OPTSENS},
